@@ -83,6 +83,8 @@ def match(node, template, binds=None):
     b = dict(binds or {})
     if isinstance(t, ast.Expr) and not isinstance(node, ast.Expr):
         t = t.value
+    if isinstance(node, ast.Expr) and not isinstance(t, (ast.Expr, list)) and not isinstance(t, ast.stmt):
+        node = node.value
     if _m(t, node, b):
         return b
     return None
